@@ -540,6 +540,11 @@ partial def loop (h : IO.FS.Stream) (out : IO.FS.Stream) (sess : Option Sess) : 
   let line ← h.getLine
   if line.isEmpty then return ()
   let toks := (line.trimAscii.toString.splitOn " ").filter (· != "")
+  -- the `std::io`-flavoured wrappers `write_<ty>_<order>` / `write_<ty>_varint` are the puts with another error type
+  let toks := match toks with
+    | "wput" :: h' :: ty :: rest => if ty == "u8" || ty == "i8" then ["bad-op-wput"] else "put" :: h' :: ty :: rest
+    | "wput_var" :: rest => "put_var" :: rest
+    | t => t
   match toks with
   | [] => loop h out sess
   | "cfg" :: rest =>
